@@ -55,6 +55,7 @@ public:
     auto lock = get_lock();
     older = trompeloeil_lifetime_monitor.leak();
     trompeloeil_lifetime_monitor = monitor;
+    TROMPELOEIL_VERIF_EVENT("watch", this, 1);
     return trompeloeil_lifetime_monitor.leak();
   }
 private:
@@ -94,6 +95,7 @@ struct lifetime_monitor : public expectation
   ~lifetime_monitor() override
   {
     auto lock = get_lock();
+    TROMPELOEIL_VERIF_EVENT("unwatch", this, 1);
     if (!died)
     {
       std::ostringstream os;
@@ -159,6 +161,7 @@ template <typename T>
 deathwatched<T>::~deathwatched()
 {
   auto lock = get_lock();
+  TROMPELOEIL_VERIF_EVENT("obj_dtor", this, 1);
   if (trompeloeil_lifetime_monitor)
   {
     for (auto m = trompeloeil_lifetime_monitor.leak(); m; m = m->older_monitor)
